@@ -8,7 +8,7 @@
       stored statistics, and chunk_partial_repaired / chunk_partial_current against every read.
    3. memtable cases: the statistics the real builder left against mem_stats_repaired / mem_stats_current. *)
 From Coq Require Import ZArith List Bool.
-From OG Require Import C09.Model C09.ChunkModel C09.ChunkProofs.
+From OG Require Import C09.Model C09.ChunkModel C09.ChunkProofs C09.BucketModel.
 Import ListNotations.
 Open Scope Z_scope.
 
@@ -150,3 +150,10 @@ Fixpoint flat_mem_from (k : nat) (cs : list mem_case) : list (nat * nat * nat) :
     (if l then [] else [(k, 0, 0)%nat]) ++ map (fun i => (k, 1, i)%nat) a ++ map (fun i => (k, 2, i)%nat) b ++ flat_mem_from (S k) rest
   end.
 Definition flat_mem := flat_mem_from 0.
+
+(* ---- 4. time buckets: every row the plain select returned for a (group, bucket) of a GROUP BY time(w) statement lies in
+   the model's bucket whose start is the window start the engine reported (times are second offsets from the harness'
+   base time 1700000000 s) ---- *)
+Definition check_bucket (c : Z * Z * list Z) : bool :=
+  let '(w, bt, ts) := c in forallb (fun t => bucket_of w (1700000000 + t) * w =? 1700000000 + bt) ts.
+Definition bucket_mismatches (cs : list (Z * Z * list Z)) : list nat := bad_indices check_bucket 0 cs.
